@@ -457,6 +457,7 @@ func propC18(a *Analysis, r *Registry) {
 	}
 	propC18rest(a, r, b)
 	propC18quote(a, r, b)
+	sweepC18(a, r, b)
 }
 
 // taintOK: is the string-valued v safe to write to the dot output?
